@@ -167,10 +167,13 @@ func genC13(c *Ctx) {
 	}
 	// long messages
 	for _, a := range hashAlgos {
-		for _, l := range []int{10000, 65537} {
+		for _, l := range []int{10000, 65535, 65536, 65537, 1<<20 + 1} {
 			d := genData(datas, l, 3)
 			c.Case("long/"+a.name, "hash "+a.name+" c:"+d, runHashOps(a.mk(), a.oneShot, []string{"c:" + d}, datas))
 		}
+		// a long message written in two pieces around 64 KiB, after a short first write (buffered path, then fast path)
+		d1, d2, d3 := genData(datas, 5, 61), genData(datas, 65531, 62), genData(datas, 70000, 63)
+		c.Case("long-writes/"+a.name, "hash "+a.name+" w:"+d1+" w:"+d2+" w:"+d3+" s", runHashOps(a.mk(), a.oneShot, []string{"w:" + d1, "w:" + d2, "w:" + d3, "s"}, datas))
 	}
 	genC13kmac(c, datas)
 }
